@@ -149,8 +149,39 @@ def _string_returns(fn: FunctionInfo) -> Set[str]:
     return out
 
 
+def _string_tables(fn: FunctionInfo) -> Dict[str, Set[str]]:
+    """Module-level / class-level names bound to a dict display with string keys (dispatch tables), or to a tuple /
+    list / set of string literals, visible from fn."""
+    out: Dict[str, Set[str]] = {}
+    scopes = [fn.module.globals_]
+    if fn.cls is not None:
+        scopes.append(fn.cls.class_attrs)
+    for sc in scopes:
+        for name, v in sc.items():
+            if isinstance(v, ast.Dict) and v.keys and all(isinstance(k, ast.Constant) and isinstance(k.value, str) for k in v.keys):
+                out[name] = {k.value for k in v.keys}
+            elif isinstance(v, (ast.Tuple, ast.List, ast.Set)) and v.elts:
+                keys = set()
+                for e in v.elts:
+                    if isinstance(e, ast.Constant) and isinstance(e.value, str):
+                        keys.add(e.value)
+                    elif isinstance(e, (ast.Tuple, ast.List)) and e.elts and isinstance(e.elts[0], ast.Constant) and isinstance(e.elts[0].value, str):
+                        keys.add(e.elts[0].value)
+                if len(keys) == len(v.elts):
+                    out[name] = keys
+    return out
+
+
 def _handled_literals(fn: FunctionInfo, var: str) -> Set[str]:
     out = set()
+    # dispatch through a table of method names: TABLE[var], var in TABLE, TABLE.get(var), helper(TABLE, var)
+    tables = _string_tables(fn)
+    for n in walk_body(fn):
+        if isinstance(n, (ast.Call, ast.Subscript, ast.Compare)):
+            names = {x.id for x in ast.walk(n) if isinstance(x, ast.Name)} | {x.attr for x in ast.walk(n) if isinstance(x, ast.Attribute)}
+            if var in names:
+                for t in names & set(tables):
+                    out |= tables[t]
     for n in walk_body(fn):
         if isinstance(n, ast.Compare) and isinstance(n.left, ast.Name) and n.left.id == var and len(n.ops) == 1:
             if isinstance(n.ops[0], ast.Eq) and isinstance(n.comparators[0], ast.Constant):
@@ -169,6 +200,11 @@ def _rejects_unknown(fn: FunctionInfo, var: str) -> bool:
                 cur = cur.orelse[0]
             if cur.orelse and any(isinstance(s, ast.Raise) for s in cur.orelse):
                 return True
+    # table dispatch: the failed lookup raises, naming the offending value
+    for n in walk_body(fn):
+        if isinstance(n, ast.Raise) and n.exc is not None and any(k in norm(n.exc) for k in ("RuntimeError", "ValueError", "KeyError")) \
+                and any(isinstance(x, ast.Name) and x.id == var for x in ast.walk(n.exc)):
+            return True
     return False
 
 
@@ -267,6 +303,33 @@ def rule_request_forwarding(idx: ProgramIndex, rep: Report):
                                           "decomposition that was asked for is replaced by a truncated Lanczos one", fn.loc(x)), sample)
             else:
                 rep.ok("C06.M2", sample)
+    # the same obligation when the dispatch goes through a table  {"symeig": "_root_from_symeig", ...}: the helper registered
+    # under key k runs for the explicit request method == k
+    for scope in [base.module.globals_, base.class_attrs]:
+        for tname, v in scope.items():
+            if not (isinstance(v, ast.Dict) and v.keys and all(isinstance(k, ast.Constant) and isinstance(k.value, str) for k in v.keys)
+                    and all(isinstance(x, ast.Constant) and isinstance(x.value, str) for x in v.values)):
+                continue
+            for k_, x_ in zip(v.keys, v.values):
+                hf = idx.resolve_method(base, x_.value)
+                if hf is None or hf.name in dispatchers:
+                    continue
+                for x in walk_body(hf):
+                    if not (isinstance(x, ast.Call) and isinstance(x.func, ast.Attribute) and x.func.attr in dispatchers
+                            and isinstance(x.func.value, ast.Name) and x.func.value.id == "self"):
+                        continue
+                    callee = dispatchers[x.func.attr]
+                    n += 1
+                    clash = sorted({k_.value} & _handled_literals(callee, "method"))
+                    passes = any(k.arg == "method" for k in x.keywords) or len(x.args) > callee.params().index("method") - 1
+                    sample = {"caller": fname(hf), "registered_under": f"{tname}[{k_.value!r}]", "call": short(x, 50), "callee_handles": clash}
+                    if clash and not passes:
+                        rep.bad("C06.M2", Finding(PROP, "C06.M2", fname(hf), f"{norm(x)} under {tname}[{k_.value!r}]",
+                                                  f"{fname(hf)} is what the explicit request method={k_.value!r} is dispatched to ({tname}); it "
+                                                  f"calls `{short(x, 50)}` without method=, and {callee.name} has its own branch for "
+                                                  f"{k_.value!r} but, called like this, chooses by matrix size / settings", hf.loc(x)), sample)
+                    else:
+                        rep.ok("C06.M2", sample)
     if n < 2:
         rep.error(f"only {n} dispatcher-to-dispatcher calls under an explicit method test found (expected >= 2)")
 
